@@ -459,3 +459,14 @@ package scipipe
 //@   atcall (*Task).finalizePaths only-after-success-and-check[C01,C09]: cmdSucceeded(t) && allChecked(t)
 //@   atcall (*Workflow).DecConcurrentTasks release-after-finalize[C06]: allRenamed(t)
 //@   atsend done-only-when-complete[C05,C09]: $ch == t.Done && (old(anyOutExists(t)) || (cmdSucceeded(t) && allRenamed(t) && held(t.workflow) == old(held(t.workflow))))
+
+// ---------------------------------------------------------------------------
+// ip.go: FileIP.Write (the documented way for Go-function tasks to produce an output)
+// ---------------------------------------------------------------------------
+
+//@ func (*FileIP).Write(ip, dat)
+//@   props C01
+//@   requires nonempty: len(ip.path) > 0
+//@   modifies effCreated, effMkdir, fsEpoch
+//@   ensures creates-temp-path: effCreated == setAdd(old(effCreated), tempPathOf(ip.path))
+//@   ensures not-final: forall p string :: effCreated[p] && !old(effCreated)[p] ==> p != ip.path
